@@ -37,8 +37,10 @@ def gen_history(seed, max_edits=8, features=None, inproc_only=False, deps_ops=Tr
         rs = roots(p)
         for _ in range(n):
             nid = rs[0] if rng.random() < 0.6 else rs[rng.randrange(len(rs))]
-            steps.append({"op": "call", "node": nid, "x": rng.choice([1, 1, 2, 0]), "via": rng.choice(VIAS),
-                          "twice": rng.random() < 0.3})
+            st = {"op": "call", "node": nid, "x": rng.choice([1, 1, 2, 0]), "via": rng.choice(VIAS), "twice": rng.random() < 0.3}
+            if p["nodes"][nid].get("fparams") and rng.random() < 0.5:
+                st["fnargs"] = list(p["nodes"][nid]["fparams"])
+            steps.append(st)
     add_calls(cur, rng.randrange(1, 4))
     for _ in range(rng.randrange(1, max_edits + 1)):
         e = progen.gen_edit(rng, cur, counter)
@@ -69,6 +71,8 @@ def apply_with_discipline(prog, e, n):
     for u in touched:
         if u[0] == "g":
             tn |= set(progen.global_users(p, u[1]))
+        if u[0] == "b":
+            tn |= set(progen.builtin_users(p, u[1]))
     for eid in progen.explicit_bumps(p, tn, n):
         p["nodes"][eid]["explicit"] = "v%d" % (n + 1)
         touched.add(("n", eid))
@@ -103,11 +107,10 @@ def import_program(prog, root):
 def deliver(prog_before, prog_after, touched, e, delivery):
     """Apply an in-process edit to the live modules."""
     mods = {}
+    def mod_of(u):
+        return prog_after["globals"][u[1]]["module"] if u[0] == "g" else u[1] if u[0] == "b" else prog_after["nodes"][u[1]]["module"]
     for u in touched:
-        if u[0] == "g":
-            mods.setdefault(prog_after["globals"][u[1]]["module"], []).append(u)
-        else:
-            mods.setdefault(prog_after["nodes"][u[1]]["module"], []).append(u)
+        mods.setdefault(mod_of(u), []).append(u)
     if delivery == "inproc-mutate":
         g = prog_after["globals"][e["gid"]]
         live = getattr(sys.modules[modname(prog_after, g["module"])], g["name"])
@@ -120,7 +123,7 @@ def deliver(prog_before, prog_after, touched, e, delivery):
         touched = set(u for u in touched if u[0] != "g")
         mods = {}
         for u in touched:
-            mods.setdefault(prog_after["nodes"][u[1]]["module"], []).append(u)
+            mods.setdefault(mod_of(u), []).append(u)
     if delivery == "inproc-rebind":
         g = prog_after["globals"][e["gid"]]
         import copy
@@ -128,13 +131,13 @@ def deliver(prog_before, prog_after, touched, e, delivery):
         touched = set(u for u in touched if u[0] != "g")
         mods = {}
         for u in touched:
-            mods.setdefault(prog_after["nodes"][u[1]]["module"], []).append(u)
+            mods.setdefault(mod_of(u), []).append(u)
     for mi in sorted(mods):
         name = modname(prog_after, mi)
         if delivery == "inproc-module":
             world.load_module(name, progen.render_module(prog_after, mi))
         else:
-            order = {"g": 0, "n": 1, "a": 2}
+            order = {"g": 0, "b": 0, "n": 1, "a": 2}
             for u in sorted(mods[mi], key=lambda u: (order[u[0]], u[1])):
                 world.load_module(name, progen.render_unit(prog_after, u))
 
@@ -145,22 +148,27 @@ def do_call(prog, step, memo, side):
     fn = getattr(sys.modules[modname(prog, nd["module"])], nd["name"])
     x = step["x"]
     via = step["via"] if memo else "plain"
+    kw = {}
+    for j in step.get("fnargs") or []:
+        if j in (nd.get("fparams") or []) and prog["nodes"][j]["kind"] == "memento":
+            t = prog["nodes"][j]
+            kw["p%d" % j] = getattr(sys.modules[modname(prog, t["module"])], t["name"])
     outs = []
     for _ in range(2 if step.get("twice") else 1):
         side.take()
         try:
             if via == "plain":
-                r = fn(x)
+                r = fn(x, **kw)
             elif via == "call":
-                r = fn.call(x)
+                r = fn.call(x, **kw)
             elif via == "ignore_result":
-                r = ["ignored", fn.ignore_result()(x)]
+                r = ["ignored", fn.ignore_result()(x, **kw)]
             elif via == "force_local":
-                r = fn.force_local()(x)
+                r = fn.force_local()(x, **kw)
             elif via == "partial":
-                r = fn.partial(x)()
+                r = fn.partial(x)(**kw)
             elif via == "context":
-                r = fn.with_context_args({"c": 1})(x)
+                r = fn.with_context_args({"c": 1})(x, **kw)
             else:
                 raise core.HarnessError("via %r" % via)
             out = ["ok", r]
@@ -326,7 +334,11 @@ def execute_history(case, want):
                 if st["op"] == "call":
                     bump("calls")
                     bump("via:" + st["via"])
-                    exp_kind = progen.expected_outcome(cur, st["node"], st["x"])
+                    fnargs = [j for j in (st.get("fnargs") or []) if j in (cur["nodes"][st["node"]].get("fparams") or [])
+                              and cur["nodes"][j]["kind"] == "memento"]
+                    if fnargs:
+                        bump("calls_with_function_argument")
+                    exp_kind = progen.expected_outcome(cur, st["node"], st["x"], fnargs)
                     if exp_kind == "ude":
                         bump("calls_expected_ude")
                     for ci, (gm, rf) in enumerate(zip(g["call"], ref[si])):
